@@ -7,11 +7,11 @@ Tie: harness/run_term.cc (which #includes termination.cc to reach the static bui
 loop, the builders, the three low-level families and the public entry points; ocaml/judge_term.ml (glue around
 the extracted module Term) checks (i) transcribed encodings == systems the C++ built, (ii) every returned
 function / every generator of a returned space really ranks the relation, (iii) verdict == exact feasibility of
-the encoding, (iv) the methods agree, (v) the MS space == exact projection of the encoding."""
+the encoding, (iv) the methods agree, (v) each returned space (MS, PR, PR_original) == exact projection of its encoding."""
 import json, os
 import common, polyrun, gen_term
 
-COQ_FILES = ["Term/RankSpec.v", "Term/Encode.v", "Term/Sound.v", "Term/Check.v", "Term/Farkas.v", "Term/Complete.v", "Term/CompletePR2.v"]
+COQ_FILES = ["Term/RankSpec.v", "Term/Encode.v", "Term/Sound.v", "Term/Check.v", "Term/Farkas.v", "Term/Complete.v", "Term/CompletePR2.v", "Term/Spaces.v"]
 COQ_FILES = [f for f in COQ_FILES if os.path.exists(os.path.join(common.COQ, f))]
 
 TIE_KINDS = ("tie-", "judge-syntax")
